@@ -132,6 +132,8 @@ def compare(ctx, spec, outs, inputs, types, what):
             if culprit:
                 k, t, v = culprit
                 vcls = classify_string(v) if isinstance(v, str) else type(v).__name__
+                if integral_float_at_restricted_int(t, v):
+                    vcls = "integral-float-at-restricted-int"
                 sig = f"decision-differs/{chan_family(name)}-vs-object/{t.kind if t.kind not in ('optional',) else 'optional:' + t.children[0].kind}/{vcls}"
                 w = dict(channel=name, hint=t.skel, value=v, object_outcome=ref.brief(), channel_outcome=o.brief())
             else:
@@ -155,9 +157,36 @@ def compare(ctx, spec, outs, inputs, types, what):
             if t is not None:
                 v = inputs.get([kk for kk in types if key == kk or key.startswith(kk + ".")][0])
                 vcls = "+".join(sorted({classify_string(x) for x in _strings(v)} - {"plain"})) or type(v).__name__
+                if integral_float_at_restricted_int(t, v):
+                    vcls = "integral-float-at-restricted-int"
             sig = f"value-differs/{chan_family(name)}-vs-object/{t.kind if t is not None else 'structure'}/{diff_class((steps_str(steps), reason))}/{vcls}"
             ctx.violation("channels", sig, dict(channel=name, at=steps_str(steps), why=reason, hint=t.skel if t else None, inputs=short(inputs, 600), object_result=short(ref.value, 500), channel_result=short(o.value, 500)))
             return
+
+
+def _floats(v):
+    if isinstance(v, float):
+        yield v
+    elif isinstance(v, dict):
+        for x in v.values():
+            yield from _floats(x)
+    elif isinstance(v, (list, tuple)):
+        for x in v:
+            yield from _floats(x)
+
+
+def _nodes(t):
+    yield t
+    for c in t.children or ():
+        yield from _nodes(c)
+
+
+def integral_float_at_restricted_int(t, v):
+    """mechanism of a known finding: the value holds a float with integral value and the hint a restricted int type"""
+    try:
+        return any(x.is_integer() for x in _floats(v) if x == x and abs(x) != float("inf")) and any(n.kind == "rnum" and n.extra[0] is int for n in _nodes(t))
+    except Exception:
+        return False
 
 
 def _strings(v):
